@@ -36,6 +36,7 @@ ReqCli(be, o, r) ==
     <<"C18.key_matches_cert", r.exit = 0 => r.eeKeyMatches /\ r.caKeyMatches>>,
     (* webpki is used with ring's verification algorithms, which do not include P-521: OpenSSL alone judges those *)
     <<"C18.ee_chains_to_ca", r.exit = 0 => r.chainOpenssl /\ (o.alg # "ecdsa-p521" => r.chainWebpki)>>,
+    <<"C18.ee_chains_to_ca_for_requested_purposes", r.exit = 0 => r.chainPurposes.server /\ r.chainPurposes.client>>,
     <<"C18.ca_is_ca_with_certsign_crlsign", r.exit = 0 => r.caIsCa /\ {5, 6} \subseteq SeqRange(r.caKu)>>,
     <<"C18.ee_sans_eq", r.exit = 0 => r.eeSans = [i \in DOMAIN o.sans |-> ExpectedSan(o.sans[i])]>>,
     <<"C18.ee_cn_eq", r.exit = 0 => r.eeCn = o.cnHex>>,
